@@ -797,7 +797,7 @@ func init() {
 	fw.Register(&fw.Property{
 		ID:          "C13",
 		Level:       "fault_enumeration",
-		Rule:        "for every scenario the operation is first run uninterrupted to learn its ordered sequence of persistent writes (verifhook.BeforeWrite in the badger and SQL stores of the real `wrgl` binary; a recording store in-process), then EVERY position k of that sequence is visited: the process is SIGKILLed before write k (or write k returns an injected error), the repository is reopened and the invariant monitor runs (refs resolve, commits have parents, every table reported present passes the structural monitor, heads have their table), and the same command is run again and must reach the uninterrupted outcome (ref -> table ids and history shape, no extra reachable commits); scenarios: wrgl commit (new/existing branch, data another branch already holds, reverted data), merge (ff, no-ff, real), prune, transaction commit, fetch and pull (against the reference server running in the worker) as real subprocesses, and ingest.IngestTable, ObjectReceiver.Receive over several packfiles, prune.Prune in-process with 1- and 3-block tables; distinct_nontrivial = distinct (driver, operation, fault kind, size) scenarios",
+		Rule:        "for every scenario the operation is first run uninterrupted to learn its ordered sequence of persistent writes (verifhook.BeforeWrite in the badger and SQL stores of the real `wrgl` binary; a recording store in-process), then EVERY position k of that sequence is visited: the process is SIGKILLed before write k (or write k returns an injected error), the repository is reopened and the invariant monitor runs (refs resolve, commits have parents, every table reported present passes the structural monitor, heads have their table), and the same command is run again and must reach the uninterrupted outcome (ref -> table ids and history shape, no extra reachable commits); scenarios: wrgl commit (new/existing branch, data another branch already holds, reverted data), merge (ff, no-ff, real), prune, transaction commit, fetch and pull (against the reference server running in the worker), a commit followed by prune on the interrupted repository, as real subprocesses, and ingest.IngestTable, ObjectReceiver.Receive over several packfiles, prune.Prune in-process with 1- and 3-block tables; distinct_nontrivial = distinct (driver, operation, fault kind, size) scenarios",
 		Assumptions: []string{"a single badger Update / SQL transaction is atomic and durable against process death", "crashes inside a write, lost acknowledged writes and OS/power failures are not modelled", "the reference server (harness/refserver) is trusted harness logic"},
 		Workers:     8,
 		Gen: func(tier string, seed int64) []fw.Case {
